@@ -15,6 +15,8 @@ pub struct FindChangePoints<F: Fn(u64) -> usize> {
     func: F,
     current: u64,
     prev_value: usize,
+    /// Whether the first item (the value at zero) has still to be returned.
+    first: bool,
 }
 
 impl<F: Fn(u64) -> usize> FindChangePoints<F> {
@@ -23,6 +25,7 @@ impl<F: Fn(u64) -> usize> FindChangePoints<F> {
             func,
             current: 0,
             prev_value: usize::MAX,
+            first: true,
         }
     }
 }
@@ -33,7 +36,8 @@ impl<F: Fn(u64) -> usize> Iterator for FindChangePoints<F> {
 
     fn next(&mut self) -> Option<Self::Item> {
         // handle the first case, we don't need to search for the first change
-        if self.current == 0 && self.prev_value == usize::MAX {
+        if self.first {
+            self.first = false;
             self.prev_value = (self.func)(0);
             return Some((0, self.prev_value));
         }
